@@ -1,2 +1,636 @@
+// c08_spaces.hpp - the non-particle spaces of C08: attribute uses, content kinds, type hierarchy / xsi:type / xsi:nil /
+// substitution groups, wildcard namespace constraints x processContents, and schema assembly variants (metamorphic).
+// Every space is a list of BCase (one schema = one case) each carrying a batch of instance items (one per line) with the verdict
+// computed by a direct implementation of the XML Schema 1.0 Structures rules for exactly the generated components.
 #pragma once
-static bool setup_space(const std::string&, const std::string&, const Args&, Runner&) { return false; }
+
+static const std::string XSDNS = "http://www.w3.org/2001/XMLSchema";
+
+struct Item {
+    std::string xml;                 // the instance element (goes inside <t:w>...</t:w> on its own line)
+    int expect = 0;                  // 0 valid, 1 invalid, 2 no claim
+    std::string type;                // expected governing type "ns|name" when valid ("" = no claim)
+    bool claimText = false;          // compare the character content delivered for the item element (element default / fixed)
+    std::string text;
+    bool claimAttrs = false;         // compare the delivered attribute list (attribute default / fixed)
+    std::vector<std::string> attrs;  // "qname=value=spec|dflt"
+    std::vector<std::string> attrTypes;  // "local|typeNs|typeName" that must be reported for the attribute when valid
+    std::string why;                 // rule that decides the verdict (for reports)
+};
+struct BCase {
+    std::string desc;
+    std::map<std::string, std::string> files;   // VFS content (schemas)
+    std::string docHead = DOC_HEAD;
+    std::vector<Item> items;
+    int schemaExpect = 0;            // 0 must load without error, 1 must be reported as erroneous, 2 no claim, 3 erroneous under full checking only
+    std::string schemaWhy;
+    bool fullOff = true;             // also run with full checking off
+};
+static std::vector<BCase> BCASES;
+static std::string g_bspace;
+
+struct DumpItem { std::string text; std::vector<std::string> attrs; bool seen = false; };
+
+// extract, for every element at depth 2 (the item elements), its attributes (without xmlns / xsi) and direct character content
+static std::vector<DumpItem> dump_items(const std::vector<std::string>& lines, bool dom) {
+    std::vector<DumpItem> out;
+    int depth = -1;
+    bool inItem = false;
+    for (auto& l : lines) {
+        if (l.compare(0, 2, "S|") == 0) {
+            depth++;
+            if (depth == 2) { out.push_back(DumpItem()); out.back().seen = true; inItem = true; }
+            else inItem = false;
+        } else if (l.compare(0, 2, "E|") == 0) { depth--; inItem = false; }
+        else if (l.compare(0, 2, "A|") == 0) {
+            if (!inItem || depth != 2) continue;
+            std::vector<std::string> f; size_t p = 0;
+            while (true) { size_t q = l.find('|', p); f.push_back(l.substr(p, q == std::string::npos ? q : q - p)); if (q == std::string::npos) break; p = q + 1; }
+            if (f.size() < 7) continue;
+            if (f[1].compare(0, 5, "xmlns") == 0 || f[1].compare(0, 4, "xsi:") == 0) continue;
+            out.back().attrs.push_back(f[1] + "=" + f[2] + "=" + (dom ? f[4] : std::string("?")));
+        } else if (l.compare(0, 2, "T|") == 0 || l.compare(0, 3, "IW|") == 0) {
+            if (depth == 2 && !out.empty()) out.back().text += l.substr(l.find('|') + 1);
+        }
+    }
+    return out;
+}
+
+static bool attrs_equal(const std::vector<std::string>& exp, const std::vector<std::string>& got, bool dom) {
+    std::vector<std::string> a = exp, b = got;
+    if (!dom) for (auto& s : a) s = s.substr(0, s.rfind('=')) + "=?";
+    std::sort(a.begin(), a.end()); std::sort(b.begin(), b.end());
+    return a == b;
+}
+static std::string joinv(const std::vector<std::string>& v) { std::string o; for (auto& s : v) { if (!o.empty()) o += " "; o += s; } return o; }
+
+static void run_bcase(uint64_t idx, Ctx& c) {
+    const BCase& bc = BCASES[idx];
+    std::string doc = bc.docHead;
+    for (auto& it : bc.items) doc += "<t:w>" + it.xml + "</t:w>\n";
+    doc += "</t:r>\n";
+    size_t nExpValid = 0, nExpInvalid = 0;
+    for (auto& it : bc.items) { if (it.expect == 0) nExpValid++; else if (it.expect == 1) nExpInvalid++; }
+    c.count("schemas");
+    if (bc.schemaExpect == 0) { c.count("ref_items_valid", nExpValid); c.count("ref_items_invalid", nExpInvalid); c.count("ref_items_noclaim", bc.items.size() - nExpValid - nExpInvalid); }
+    std::string filesJson = "{";
+    for (auto& f : bc.files) filesJson += (filesJson.size() > 1 ? "," : "") + jstr(f.first) + ":" + jstr(f.second);
+    filesJson += "}";
+    for (int sc : {IG, SG}) for (int api : {SAX2, DOM}) for (int full = 1; full >= (bc.fullOff ? 0 : 1); full--) {
+        Config cfg; cfg.api = api; cfg.scanner = sc; cfg.ns = true; cfg.schema = true; cfg.val = 1; cfg.fullcheck = full != 0;
+        g_vfs->clear();
+        for (auto& f : bc.files) g_vfs->put(f.first, f.second);
+        Parsed P = parse8(cfg, doc, true, true);
+        c.count("parses");
+        std::string base = "\"case\":" + jstr(bc.desc) + ",\"config\":" + jstr(cfg.str());
+        if (c.verbose) {
+            printf("== %s  %s\n", bc.desc.c_str(), cfg.str().c_str());
+            for (auto& e : P.r.errors) printf("   %s\n", e.c_str());
+        }
+        if (!P.r.exc.empty() || P.r.fatals) {
+            if (bc.schemaExpect == 1 || (bc.schemaExpect == 3 && full)) { c.count("schema_rejected_as_expected"); continue; }
+            c.violation("fatal-or-exception", base + ",\"exc\":" + jstr(P.r.exc) + ",\"first\":" + jstr(P.r.errors.empty() ? "" : P.r.errors[0]) + ",\"files\":" + filesJson);
+            continue;
+        }
+        size_t schemaErrs = 0; std::string firstSchemaErr, stray;
+        std::vector<char> got(bc.items.size(), 0);
+        std::vector<std::string> firstErr(bc.items.size());
+        for (auto& e : P.r.errors) {
+            ErrRec er = split_err(e);
+            if (er.sev == 'W') continue;
+            // schema traversal errors carry the schema document's system id; grammar-level checks (UPA, particle derivation) are
+            // reported at the root start tag (line 1) where the grammar was loaded
+            if (!ends_with(er.sysid, "doc.xml") || er.line == 1) { if (!schemaErrs) firstSchemaErr = e; schemaErrs++; continue; }
+            long w = er.line - 2;
+            if (w < 0 || (size_t)w >= bc.items.size()) { if (stray.empty()) stray = e; continue; }
+            if (!got[w]) firstErr[w] = e;
+            got[w] = 1;
+        }
+        bool expectErr = bc.schemaExpect == 1 || (bc.schemaExpect == 3 && full);
+        if (expectErr) {
+            c.count("expect_schema_rejected");
+            if (!schemaErrs) c.violation("invalid-schema-accepted", base + ",\"why\":" + jstr(bc.schemaWhy) + ",\"files\":" + filesJson);
+            else c.count("schema_rejected_as_expected");
+            continue;
+        }
+        if (bc.schemaExpect == 2 || (bc.schemaExpect == 3 && !full)) { c.count("schema_noclaim"); if (schemaErrs) continue; }
+        else if (schemaErrs) { c.violation("valid-schema-rejected", base + ",\"error\":" + jstr(firstSchemaErr) + ",\"files\":" + filesJson); continue; }
+        if (bc.schemaExpect != 0) continue;
+        c.count("schema_accepted_as_expected");
+        if (!stray.empty()) { c.violation("error-outside-instance-lines", base + ",\"error\":" + jstr(stray) + ",\"files\":" + filesJson); continue; }
+        // type records of the items (depth 2) and of their wrappers (depth 1)
+        std::vector<const TypeRec*> itemT, wrapT;
+        for (auto& t : P.types) { if (t.depth == 2) itemT.push_back(&t); else if (t.depth == 1) wrapT.push_back(&t); }
+        std::vector<DumpItem> di = dump_items(P.r.d.lines, api == DOM);
+        bool aligned = itemT.size() == bc.items.size() && wrapT.size() == bc.items.size() && di.size() == bc.items.size();
+        if (!aligned) { c.violation("harness-alignment", base + ",\"items\":" + std::to_string(bc.items.size()) + ",\"types\":" + std::to_string(itemT.size()) + ",\"dump\":" + std::to_string(di.size())); continue; }
+        int reported = 0;
+        for (size_t i = 0; i < bc.items.size(); i++) {
+            const Item& it = bc.items[i];
+            if (it.expect == 2) { c.count("items_noclaim"); continue; }
+            std::string ib = base + ",\"instance\":" + jstr(it.xml) + ",\"rule\":" + jstr(it.why);
+            c.count("instance_verdicts_compared");
+            if ((bool)got[i] != (it.expect == 1)) {
+                if (reported++ < 3) c.violation(it.expect == 1 ? "invalid-instance-accepted" : "valid-instance-rejected", ib + ",\"error\":" + jstr(firstErr[i]) + ",\"files\":" + filesJson);
+                continue;
+            }
+            if (it.expect == 1) {
+                // informational only: the PSVI [validity] property is not part of the property text (validity is reported through
+                // the error handler); count how often PSVI still says "valid" for an item that was correctly reported invalid
+                c.count(itemT[i]->validity != 1 && wrapT[i]->validity != 1 ? "info_psvi_validity_not_invalid_for_invalid_item" : "info_psvi_validity_invalid_for_invalid_item");
+                continue;
+            }
+            c.count("psvi_valid_compared");
+            if (itemT[i]->validity != 2 && reported++ < 3) c.violation("psvi-validity-not-valid", ib + ",\"item\":" + jstr(itemT[i]->str()) + ",\"files\":" + filesJson);
+            if (!it.type.empty()) {
+                c.count("type_names_compared");
+                std::string gotType = itemT[i]->tns + "|" + itemT[i]->tname;
+                // SAX2 PSVIElement::getTypeDefinition() is null for the ur-type (the DOM builder documents and applies the convention
+                // "valid without a type definition = xs:anyType"); accept the null only there
+                if (api == SAX2 && it.type == XSDNS + "|anyType" && gotType == "|") { c.count("sax2_psvi_null_type_for_anytype"); gotType = it.type; }
+                if (gotType != it.type && reported++ < 3) c.violation("wrong-type-name", ib + ",\"expected\":" + jstr(it.type) + ",\"observed\":" + jstr(gotType) + ",\"files\":" + filesJson);
+            }
+            for (auto& at : it.attrTypes) {
+                c.count("attr_type_names_compared");
+                std::vector<std::string> f; size_t p = 0;
+                while (true) { size_t q = at.find('|', p); f.push_back(at.substr(p, q == std::string::npos ? q : q - p)); if (q == std::string::npos) break; p = q + 1; }
+                bool ok = false; std::string seen;
+                for (auto& a : itemT[i]->attrs) {
+                    std::vector<std::string> g; size_t p2 = 0;
+                    while (true) { size_t q = a.find('|', p2); g.push_back(a.substr(p2, q == std::string::npos ? q : q - p2)); if (q == std::string::npos) break; p2 = q + 1; }
+                    if (g.size() >= 4 && g[0] == f[0]) { seen = a; ok = g[2] == f[1] && g[3] == f[2]; }
+                }
+                if (!ok && reported++ < 3) c.violation("wrong-attribute-type", ib + ",\"expected\":" + jstr(at) + ",\"observed\":" + jstr(seen) + ",\"files\":" + filesJson);
+            }
+            if (it.claimText) {
+                c.count("element_text_compared");
+                if (di[i].text != it.text && reported++ < 3) c.violation("wrong-element-content", ib + ",\"expected\":" + jstr(it.text) + ",\"observed\":" + jstr(di[i].text) + ",\"files\":" + filesJson);
+            }
+            if (it.claimAttrs) {
+                c.count("attribute_lists_compared");
+                if (!attrs_equal(it.attrs, di[i].attrs, api == DOM) && reported++ < 3)
+                    c.violation("wrong-attribute-list", ib + ",\"expected\":" + jstr(joinv(it.attrs)) + ",\"observed\":" + jstr(joinv(di[i].attrs)) + ",\"files\":" + filesJson);
+            }
+        }
+    }
+    if (idx % 97 == 0) c.sample("{\"case\":" + jstr(bc.desc) + ",\"items\":" + std::to_string(bc.items.size()) + ",\"first_item\":" + jstr(bc.items.empty() ? "" : bc.items[0].xml) + "}");
+}
+
+static const char* const R_AND_W =
+    "<xs:element name=\"r\"><xs:complexType><xs:sequence><xs:element ref=\"t:w\" minOccurs=\"0\" maxOccurs=\"unbounded\"/></xs:sequence></xs:complexType></xs:element>\n";
+static std::string w_decl(const std::string& content) { return "<xs:element name=\"w\"><xs:complexType><xs:sequence>" + content + "</xs:sequence></xs:complexType></xs:element>\n"; }
+
+static bool is_integer(const std::string& s) {
+    size_t i = 0;
+    if (i < s.size() && (s[i] == '+' || s[i] == '-')) i++;
+    if (i >= s.size()) return false;
+    for (; i < s.size(); i++) if (s[i] < '0' || s[i] > '9') return false;
+    return true;
+}
+static std::string collapse(const std::string& s) {
+    std::string o; bool sp = false;
+    for (char ch : s) {
+        if (ch == ' ' || ch == '\t' || ch == '\n' || ch == '\r') { sp = !o.empty(); continue; }
+        if (sp) o += ' ';
+        sp = false; o += ch;
+    }
+    return o;
+}
+
+// ================================================================================================ attribute uses
+// element e: complexType{ attribute p : xs:integer, use x {none, default=5, fixed=5} ; optional anyAttribute }.  Global attribute t:g : xs:integer.
+static void build_attrs(const std::string& tier) {
+    (void)tier;
+    const char* USES[3] = {"optional", "required", "prohibited"};
+    const char* VCS[3] = {"", " default=\"5\"", " fixed=\"5\""};
+    struct AW { const char* ns; int pc; };   // pc: 0 strict 1 lax 2 skip, -1 = no wildcard
+    std::vector<AW> aws = {{"", -1}, {"##any", 0}, {"##any", 1}, {"##any", 2}, {"##other", 0}, {"##other", 1}, {"##local", 2}, {"##local", 1}, {"##targetNamespace", 0}, {"##targetNamespace", 1}};
+    struct PV { const char* xml; int kind; };  // kind 0 absent 1 "5" 2 "6" 3 "x" 4 " 5 "
+    std::vector<PV> pvs = {{"", 0}, {" p=\"5\"", 1}, {" p=\"6\"", 2}, {" p=\"x\"", 3}, {" p=\" 5 \"", 4}};
+    struct EX { const char* xml; int nsclass; int decl; };  // nsclass 0 none,1 unqualified,2 other ns,3 target ns ; decl 0 none 1 global valid value 2 global invalid value
+    std::vector<EX> exs = {{"", 0, 0}, {" q=\"1\"", 1, 0}, {" x:q=\"1\"", 2, 0}, {" t:g=\"7\"", 3, 1}, {" t:g=\"z\"", 3, 2}, {" t:u=\"1\"", 3, 0}};
+    for (int use = 0; use < 3; use++) for (int vc = 0; vc < 3; vc++) for (auto& aw : aws) {
+        BCase bc;
+        bc.desc = std::string("attrs use=") + USES[use] + " vc=" + (vc == 0 ? "none" : vc == 1 ? "default" : "fixed") + " anyAttribute=" + (aw.pc < 0 ? "none" : std::string(aw.ns) + "/" + WPC_ATTR[aw.pc]);
+        std::string s = XSD_HEAD;
+        s += "<xs:attribute name=\"g\" type=\"xs:integer\"/>\n";
+        s += R_AND_W + w_decl("<xs:element ref=\"t:e\"/>");
+        s += "<xs:element name=\"e\"><xs:complexType>\n<xs:attribute name=\"p\" type=\"xs:integer\" use=\"" + std::string(USES[use]) + "\"" + VCS[vc] + "/>\n";
+        if (aw.pc >= 0) s += std::string("<xs:anyAttribute namespace=\"") + aw.ns + "\" processContents=\"" + WPC_ATTR[aw.pc] + "\"/>\n";
+        s += "</xs:complexType></xs:element>\n</xs:schema>\n";
+        bc.files["/v/s.xsd"] = s;
+        // src-attribute.2: default and use both present => use must be optional
+        if (vc == 1 && use != 0) { bc.schemaExpect = 1; bc.schemaWhy = "src-attribute.2: default requires use=optional"; }
+        auto admits = [&](int nsclass) {   // does the attribute wildcard admit an attribute of this namespace class
+            if (aw.pc < 0) return false;
+            std::string ns = aw.ns;
+            if (ns == "##any") return true;
+            if (ns == "##other") return nsclass == 2;             // not the target namespace and not absent
+            if (ns == "##local") return nsclass == 1;
+            return nsclass == 3;                                   // ##targetNamespace
+        };
+        for (auto& pv : pvs) for (auto& ex : exs) {
+            Item it;
+            it.xml = std::string("<t:e") + pv.xml + ex.xml + "/>";
+            bool invalid = false; std::string why = "valid";
+            bool pDeclared = use != 2;
+            bool noclaim = false;
+            // attribute p
+            if (pv.kind != 0) {
+                if (pDeclared) {
+                    std::string v = collapse(pv.kind == 1 ? "5" : pv.kind == 2 ? "6" : pv.kind == 3 ? "x" : " 5 ");
+                    if (!is_integer(v)) { invalid = true; why = "cvc-attribute.3: value not valid for xs:integer"; }
+                    else if (vc == 2 && v != "5") { invalid = true; why = "cvc-au: value differs from fixed"; }
+                } else {
+                    // prohibited use = no attribute use at all: p is an undeclared unqualified attribute, admitted only through the wildcard
+                    if (!admits(1)) { invalid = true; why = "cvc-complex-type.3.2: prohibited / undeclared attribute p without matching wildcard"; }
+                    else if (aw.pc == 0) { invalid = true; why = "cvc-wildcard strict: no global declaration for p"; }
+                    else { noclaim = true; why = "prohibited attribute admitted by the attribute wildcard (XSD 1.0: a prohibited use is no attribute use)"; }
+                }
+            } else if (use == 1) { invalid = true; why = "cvc-complex-type.4: required attribute missing"; }
+            // extra attribute
+            if (ex.nsclass != 0) {
+                if (!admits(ex.nsclass)) { invalid = true; why = "cvc-complex-type.3.2.1: attribute not declared and not admitted by a wildcard"; }
+                else if (aw.pc == 0 && ex.decl == 0) { invalid = true; why = "cvc-wildcard strict: no global attribute declaration"; }
+                else if (aw.pc != 2 && ex.decl == 2) { invalid = true; why = "cvc-attribute.3: value of t:g not valid for xs:integer (strict/lax wildcard)"; }
+            }
+            it.expect = invalid ? 1 : noclaim ? 2 : 0;
+            it.why = why;
+            if (!invalid && !noclaim) {
+                it.type = "|";  // anonymous complex type: name absent
+                it.type.clear();
+                it.claimAttrs = true;
+                if (pv.kind != 0) it.attrs.push_back(std::string("p=") + (pv.kind == 1 ? "5" : pv.kind == 2 ? "6" : "5") + "=spec");
+                else if (pDeclared && vc != 0) it.attrs.push_back("p=5=dflt");
+                if (pv.kind == 4) it.claimAttrs = false;   // delivered value of ' 5 ' (schema-normalised or not) is a datatype-normalisation question (C09)
+                if (ex.nsclass == 1) it.attrs.push_back("q=1=spec");
+                if (ex.nsclass == 2) it.attrs.push_back("x:q=1=spec");
+                if (ex.nsclass == 3 && ex.decl == 0) it.attrs.push_back("t:u=1=spec");
+                if (ex.decl == 1) it.attrs.push_back("t:g=7=spec");
+                if (ex.decl == 2) it.attrs.push_back("t:g=z=spec");
+                if (pDeclared && (pv.kind != 0 || vc != 0)) it.attrTypes.push_back("p|" + XSDNS + "|integer");
+                if (ex.decl == 1 && aw.pc != 2) it.attrTypes.push_back("g|" + XSDNS + "|integer");
+            }
+            bc.items.push_back(it);
+        }
+        BCASES.push_back(bc);
+    }
+}
+
+// ================================================================================================ content kinds
+static void build_content(const std::string& tier) {
+    (void)tier;
+    struct TK { const char* name; const char* typeXml; const char* typeAttr; int kind; bool vcAllowed; };
+    // kind: 0 empty, 1 element-only (a), 2 element-only (a?), 3 mixed (a?), 4 mixed (a), 5 simple content integer, 6 simple integer, 7 simple string, 8 anyType
+    std::vector<TK> tks = {
+        {"empty", "<xs:complexType/>", "", 0, false},
+        {"empty-seq", "<xs:complexType><xs:sequence/></xs:complexType>", "", 0, false},
+        {"elemonly-a", "<xs:complexType><xs:sequence><xs:element ref=\"t:a\"/></xs:sequence></xs:complexType>", "", 1, false},
+        {"elemonly-aopt", "<xs:complexType><xs:sequence><xs:element ref=\"t:a\" minOccurs=\"0\"/></xs:sequence></xs:complexType>", "", 2, false},
+        {"mixed-aopt", "<xs:complexType mixed=\"true\"><xs:sequence><xs:element ref=\"t:a\" minOccurs=\"0\"/></xs:sequence></xs:complexType>", "", 3, true},
+        {"mixed-a", "<xs:complexType mixed=\"true\"><xs:sequence><xs:element ref=\"t:a\"/></xs:sequence></xs:complexType>", "", 4, false},
+        {"simplecontent-int", "<xs:complexType><xs:simpleContent><xs:extension base=\"xs:integer\"/></xs:simpleContent></xs:complexType>", "", 5, true},
+        {"simple-int", "", " type=\"xs:integer\"", 6, true},
+        {"simple-string", "", " type=\"xs:string\"", 7, true},
+        {"anytype", "", "", 8, true},
+    };
+    struct CT { const char* xml; int nA; bool nonws, ws; const char* text; bool plainEmpty; };
+    std::vector<CT> cts = {
+        {"", 0, false, false, "", true}, {" ", 0, false, true, " ", false}, {"5", 0, true, false, "5", false}, {"6", 0, true, false, "6", false}, {"x", 0, true, false, "x", false},
+        {" 5 ", 0, true, true, " 5 ", false},
+        {"<t:a/>", 1, false, false, "", false}, {" <t:a/> ", 1, false, true, "  ", false}, {"5<t:a/>", 1, true, false, "5", false}, {"<t:a/>5", 1, true, false, "5", false},
+        {"<t:a/><t:a/>", 2, false, false, "", false}, {"<!--c-->", 0, false, false, "", false}, {"<?p q?>", 0, false, false, "", false},
+        {"<![CDATA[5]]>", 0, true, false, "5", false}, {"&#32;", 0, false, true, " ", false}, {"<t:d/>", -1, false, false, "", false},
+    };
+    for (auto& tk : tks) for (int vc = 0; vc < 3; vc++) {
+        BCase bc;
+        bc.desc = std::string("content type=") + tk.name + " vc=" + (vc == 0 ? "none" : vc == 1 ? "default" : "fixed");
+        std::string s = XSD_HEAD;
+        s += R_AND_W + w_decl("<xs:element ref=\"t:e\"/>");
+        s += "<xs:element name=\"a\"><xs:complexType/></xs:element>\n";
+        s += std::string("<xs:element name=\"e\"") + tk.typeAttr + (vc == 1 ? " default=\"5\"" : vc == 2 ? " fixed=\"5\"" : "") + (tk.typeXml[0] ? std::string(">") + tk.typeXml + "</xs:element>\n" : std::string("/>\n"));
+        s += "</xs:schema>\n";
+        bc.files["/v/s.xsd"] = s;
+        if (vc != 0 && !tk.vcAllowed) { bc.schemaExpect = 1; bc.schemaWhy = "e-props-correct.2 / cos-valid-default: value constraint needs a simple type, simple content, or mixed content with emptiable particle"; }
+        for (auto& ct : cts) {
+            Item it;
+            it.xml = std::string("<t:e>") + ct.xml + "</t:e>";
+            bool invalid = false, noclaim = false; std::string why = "valid";
+            bool undeclaredChild = ct.nA < 0;
+            int nA = undeclaredChild ? 1 : ct.nA;
+            bool anyChars = ct.nonws || ct.ws;
+            bool emptyForDefault = nA == 0 && !anyChars;          // neither element nor character children
+            bool defaulted = vc != 0 && emptyForDefault;
+            std::string value = defaulted ? "5" : ct.text;
+            switch (tk.kind) {
+            case 0: if (nA > 0 || anyChars) { invalid = true; why = "cvc-complex-type.2.1: empty content type allows no character or element children"; } break;
+            case 1: case 2:
+                if (ct.nonws) { invalid = true; why = "cvc-complex-type.2.3: non-whitespace characters in element-only content"; }
+                else if (undeclaredChild || nA > 1 || (tk.kind == 1 && nA != 1)) { invalid = true; why = "cvc-complex-type.2.4: children do not match the particle"; }
+                break;
+            case 3: case 4:
+                if (undeclaredChild || nA > 1 || (tk.kind == 4 && nA != 1)) { invalid = true; why = "cvc-complex-type.2.4 (mixed): children do not match the particle"; }
+                else if (vc == 2 && !defaulted) {
+                    if (nA > 0) { invalid = true; why = "cvc-elt.5.2.2.1: fixed + mixed: no element children allowed"; }
+                    else if (ct.text != std::string("5")) { invalid = true; why = "cvc-elt.5.2.2.2.1: mixed content differs from fixed value"; }
+                }
+                break;
+            case 5: case 6:
+                if (nA > 0) { invalid = true; why = "cvc-complex-type.2.2 / cvc-type.3.1.2: no element children with simple content"; }
+                else if (!is_integer(collapse(value))) { invalid = true; why = "cvc-datatype-valid: not an xs:integer"; }
+                else if (vc == 2 && collapse(value) != "5") { invalid = true; why = "cvc-elt.5.2.2.2.2: value differs from fixed"; }
+                break;
+            case 7:
+                if (nA > 0) { invalid = true; why = "cvc-type.3.1.2: no element children for a simple type"; }
+                else if (vc == 2 && value != "5") { invalid = true; why = "cvc-elt.5.2.2.2.2: string value differs from fixed"; }
+                break;
+            case 8:
+                if (vc == 2 && !defaulted) {
+                    if (nA > 0) { invalid = true; why = "cvc-elt.5.2.2.1: fixed + mixed (anyType): no element children allowed"; }
+                    else if (ct.text != std::string("5")) { invalid = true; why = "cvc-elt.5.2.2.2.1: anyType content differs from fixed value"; }
+                }
+                // lax assessment of children: t:a is declared (empty type) and valid, t:d undeclared is fine
+                break;
+            }
+            it.expect = invalid ? 1 : noclaim ? 2 : 0;
+            it.why = why;
+            if (it.expect == 0) {
+                if (tk.kind == 6) it.type = XSDNS + "|integer";
+                if (tk.kind == 7) it.type = XSDNS + "|string";
+                if (tk.kind == 8) it.type = XSDNS + "|anyType";
+                // delivered character content: the default / fixed value when the element is empty (plain <e></e> only; comment/PI-only is claimed too)
+                if (vc != 0 && emptyForDefault) { it.claimText = true; it.text = "5"; }
+                else if (vc == 0 && ct.plainEmpty) { it.claimText = true; it.text = ""; }
+            }
+            bc.items.push_back(it);
+        }
+        BCASES.push_back(bc);
+    }
+}
+
+// ================================================================================================ type hierarchy
+// B = (a?) ; X = extension of B by (b) ; R = restriction of B to (a) ; U = (c?) unrelated.
+// element e : B  [abstract] [block] [nillable] ; element m : {B,X,R}, substitutionGroup = e [nillable]
+static unsigned block_set(const std::string& b) {   // bit0 extension, bit1 restriction, bit2 substitution
+    if (b == "#all") return 7;
+    unsigned m = 0;
+    if (b.find("extension") != std::string::npos) m |= 1;
+    if (b.find("restriction") != std::string::npos) m |= 2;
+    if (b.find("substitution") != std::string::npos) m |= 4;
+    return m;
+}
+// derivation methods used on the way from type `from` up to type `to`; returns false if `to` is not an ancestor-or-self of `from`
+static bool derivation_methods(char from, char to, unsigned& methods) {
+    methods = 0;
+    char cur = from;
+    while (cur != to) {
+        if (cur == 'X') { methods |= 1; cur = 'B'; }
+        else if (cur == 'R') { methods |= 2; cur = 'B'; }
+        else if (cur == 'Y') { methods |= 2; cur = 'X'; }   // Y = restriction of X (thorough)
+        else return false;  // B and U derive from anyType
+    }
+    return true;
+}
+static bool content_ok(char type, const std::string& content) {
+    switch (type) {
+    case 'B': return content == "" || content == "a";
+    case 'X': return content == "ab" || content == "b";
+    case 'R': return content == "a";
+    case 'Y': return content == "ab";
+    case 'U': return content == "";
+    }
+    return false;
+}
+static void build_types(const std::string& tier) {
+    bool T = tier == "thorough";
+    const std::vector<std::string> EBLOCK = {"", "extension", "restriction", "substitution", "#all"};
+    const std::vector<std::string> TBLOCK = {"", "extension", "restriction", "#all"};
+    const std::vector<char> MTYPES = T ? std::vector<char>{'B', 'X', 'R', 'Y'} : std::vector<char>{'B', 'X', 'R'};
+    const std::vector<std::string> XSITYPES = T ? std::vector<std::string>{"", "B", "X", "R", "U", "Z", "Y"} : std::vector<std::string>{"", "B", "X", "R", "U", "Z"};
+    const std::vector<std::string> CONTENTS = {"", "a", "ab", "b"};
+    for (int babs = 0; babs < 2; babs++) for (auto& tb : TBLOCK) for (auto& eb : EBLOCK) for (int eabs = 0; eabs < 2; eabs++) for (int nillable = 0; nillable < 2; nillable++) for (char mt : MTYPES) {
+        BCase bc;
+        bc.desc = std::string("types B.abstract=") + (babs ? "1" : "0") + " B.block='" + tb + "' e.block='" + eb + "' e.abstract=" + (eabs ? "1" : "0") + " nillable=" + (nillable ? "1" : "0") + " m.type=" + mt;
+        std::string s = XSD_HEAD;
+        s += R_AND_W + w_decl("<xs:element ref=\"t:e\"/>");
+        s += "<xs:element name=\"a\"><xs:complexType/></xs:element>\n<xs:element name=\"b\"><xs:complexType/></xs:element>\n<xs:element name=\"c\"><xs:complexType/></xs:element>\n";
+        s += std::string("<xs:complexType name=\"B\"") + (babs ? " abstract=\"true\"" : "") + (tb.empty() ? "" : " block=\"" + tb + "\"") + "><xs:sequence><xs:element ref=\"t:a\" minOccurs=\"0\"/></xs:sequence></xs:complexType>\n";
+        s += "<xs:complexType name=\"X\"><xs:complexContent><xs:extension base=\"t:B\"><xs:sequence><xs:element ref=\"t:b\"/></xs:sequence></xs:extension></xs:complexContent></xs:complexType>\n";
+        s += "<xs:complexType name=\"R\"><xs:complexContent><xs:restriction base=\"t:B\"><xs:sequence><xs:element ref=\"t:a\"/></xs:sequence></xs:restriction></xs:complexContent></xs:complexType>\n";
+        if (T) s += "<xs:complexType name=\"Y\"><xs:complexContent><xs:restriction base=\"t:X\"><xs:sequence><xs:sequence><xs:element ref=\"t:a\"/></xs:sequence><xs:sequence><xs:element ref=\"t:b\"/></xs:sequence></xs:sequence></xs:restriction></xs:complexContent></xs:complexType>\n";
+        s += "<xs:complexType name=\"U\"><xs:sequence><xs:element ref=\"t:c\" minOccurs=\"0\"/></xs:sequence></xs:complexType>\n";
+        s += std::string("<xs:element name=\"e\" type=\"t:B\"") + (eabs ? " abstract=\"true\"" : "") + (eb.empty() ? "" : " block=\"" + eb + "\"") + (nillable ? " nillable=\"true\"" : "") + "/>\n";
+        s += std::string("<xs:element name=\"m\" type=\"t:") + mt + "\" substitutionGroup=\"t:e\"" + (nillable ? " nillable=\"true\"" : "") + "/>\n";
+        s += "</xs:schema>\n";
+        bc.files["/v/s.xsd"] = s;
+        unsigned eBlock = block_set(eb), tBlock = block_set(tb) & 3;
+        for (const char* el : {"e", "m"}) for (auto& xt : XSITYPES) for (int nil = 0; nil < 3; nil++) for (auto& ct : CONTENTS) {
+            Item it;
+            std::string xml = std::string("<t:") + el;
+            if (!xt.empty()) xml += " xsi:type=\"t:" + xt + "\"";
+            if (nil == 1) xml += " xsi:nil=\"true\"";
+            if (nil == 2) xml += " xsi:nil=\"false\"";
+            xml += ">";
+            for (char ch : ct) xml += std::string("<t:") + ch + "/>";
+            xml += std::string("</t:") + el + ">";
+            it.xml = xml;
+            bool invalid = false; std::string why = "valid";
+            bool isM = el[0] == 'm';
+            char declType = isM ? mt : 'B';
+            auto fail = [&](const std::string& w) { if (!invalid) { invalid = true; why = w; } };
+            if (isM) {
+                // cos-equiv-derived-ok-rec: substitution blocked by e.{disallowed substitutions}, or by the derivation methods between the
+                // types intersecting block(e) + block(B) (prohibited substitutions of the head's type; intermediate types carry no block)
+                unsigned meth = 0;
+                derivation_methods(mt, 'B', meth);
+                if (eBlock & 4) fail("cos-equiv-derived-ok-rec.2.1: head blocks substitution");
+                else if (meth & ((eBlock & 3) | tBlock)) fail("cos-equiv-derived-ok-rec.2.3: derivation method of the member's type is blocked");
+            } else if (eabs) fail("cvc-elt.2: abstract element declaration");
+            if (!nillable && nil != 0) fail("cvc-elt.3.1: xsi:nil present but the declaration is not nillable");
+            bool nilled = nillable && nil == 1;
+            char actual = declType;
+            if (!xt.empty()) {
+                if (xt == "Z") fail("cvc-elt.4.2: xsi:type does not resolve to a type definition");
+                else {
+                    char lt = xt[0];
+                    unsigned meth = 0;
+                    bool derived = derivation_methods(lt, declType, meth);
+                    // blocking set: {disallowed substitutions} of the governing declaration + {prohibited substitutions} of its type
+                    unsigned blk = (isM ? 0u : (eBlock & 3)) | (declType == 'B' ? tBlock : 0u);
+                    if (!derived) fail("cvc-elt.4.3: xsi:type is not derived from the declared type");
+                    else if (meth & blk) fail("cvc-elt.4.3: derivation method blocked (cos-ct-derived-ok)");
+                    else actual = lt;
+                }
+            }
+            if (actual == 'B' && babs) fail("cvc-type.2: abstract type definition");
+            if (nilled) { if (!ct.empty()) fail("cvc-elt.3.2.1: nilled element with children"); }
+            else if (!content_ok(actual, ct)) fail("cvc-complex-type.2.4: children do not match the content model of the governing type");
+            it.expect = invalid ? 1 : 0;
+            it.why = why;
+            if (!invalid) it.type = std::string("urn:t|") + actual;
+            bc.items.push_back(it);
+        }
+        BCASES.push_back(bc);
+    }
+    // schema-level constraints on final: pairs (erroneous, clean sibling)
+    struct FS { const char* bfinal; const char* efinal; char mt; bool bad; const char* why; };
+    std::vector<FS> fs = {
+        {"", "", 'X', false, ""}, {"extension", "", 'X', true, "cos-ct-extends.1.1: base is final for extension"}, {"restriction", "", 'X', true, "derivation-ok-restriction.1: base is final for restriction (type R)"},
+        {"#all", "", 'B', true, "base final #all"}, {"", "extension", 'X', true, "e-props-correct.4 / cos-equiv-class: head is final for extension"},
+        {"", "extension", 'R', false, ""}, {"", "restriction", 'R', true, "head is final for restriction"}, {"", "restriction", 'X', false, ""}, {"", "#all", 'B', false, ""}, {"", "#all", 'X', true, "head final #all"},
+    };
+    for (auto& f : fs) {
+        BCase bc;
+        bc.desc = std::string("final B.final='") + f.bfinal + "' e.final='" + f.efinal + "' m.type=" + f.mt;
+        std::string s = XSD_HEAD;
+        s += R_AND_W + w_decl("<xs:element ref=\"t:e\"/>");
+        s += "<xs:element name=\"a\"><xs:complexType/></xs:element>\n<xs:element name=\"b\"><xs:complexType/></xs:element>\n";
+        s += std::string("<xs:complexType name=\"B\"") + (f.bfinal[0] ? std::string(" final=\"") + f.bfinal + "\"" : std::string()) + "><xs:sequence><xs:element ref=\"t:a\" minOccurs=\"0\"/></xs:sequence></xs:complexType>\n";
+        s += "<xs:complexType name=\"X\"><xs:complexContent><xs:extension base=\"t:B\"><xs:sequence><xs:element ref=\"t:b\"/></xs:sequence></xs:extension></xs:complexContent></xs:complexType>\n";
+        s += "<xs:complexType name=\"R\"><xs:complexContent><xs:restriction base=\"t:B\"><xs:sequence><xs:element ref=\"t:a\"/></xs:sequence></xs:restriction></xs:complexContent></xs:complexType>\n";
+        s += std::string("<xs:element name=\"e\" type=\"t:B\"") + (f.efinal[0] ? std::string(" final=\"") + f.efinal + "\"" : std::string()) + "/>\n";
+        s += std::string("<xs:element name=\"m\" type=\"t:") + f.mt + "\" substitutionGroup=\"t:e\"/>\n</xs:schema>\n";
+        bc.files["/v/s.xsd"] = s;
+        bc.schemaExpect = f.bad ? 1 : 0;
+        bc.schemaWhy = f.why;
+        Item it; it.xml = "<t:e/>"; it.expect = 0; it.type = "urn:t|B"; it.why = "valid";
+        bc.items.push_back(it);
+        Item i2; i2.xml = std::string("<t:m>") + (f.mt == 'X' ? "<t:b/>" : f.mt == 'R' ? "<t:a/>" : "") + "</t:m>"; i2.expect = 0; i2.type = std::string("urn:t|") + f.mt; i2.why = "valid member";
+        bc.items.push_back(i2);
+        BCASES.push_back(bc);
+    }
+}
+
+// ================================================================================================ element wildcards
+// e = (any{namespace, processContents}) with exactly one child; schema for urn:x is available through xs:import.
+static void build_wild(const std::string& tier) {
+    (void)tier;
+    struct NS { const char* attr; bool t, x, local, other; };   // admits: target ns, urn:x, no namespace, some other namespace urn:u
+    std::vector<NS> nss = {{"##any", true, true, true, true}, {"##other", false, true, false, true}, {"##targetNamespace", true, false, false, false}, {"##local", false, false, true, false},
+                           {"urn:x", false, true, false, false}, {"##local urn:x", false, true, true, false}, {"##targetNamespace ##local", true, false, true, false}};
+    struct CH { const char* xml; char nsclass; int decl; };  // decl 0 none, 1 declared + valid, 2 declared + invalid content
+    std::vector<CH> chs = {{"<t:a/>", 't', 1}, {"<t:a>z</t:a>", 't', 2}, {"<t:d/>", 't', 0}, {"<x:x>5</x:x>", 'x', 1}, {"<x:x>z</x:x>", 'x', 2}, {"<x:y/>", 'x', 0},
+                           {"<n/>", 'l', 0}, {"<u:z xmlns:u=\"urn:u\"/>", 'o', 0}, {"", '-', 0}, {"<t:a/><t:a/>", '2', 1}};
+    for (auto& ns : nss) for (int pc = 0; pc < 3; pc++) {
+        BCase bc;
+        bc.desc = std::string("wild namespace='") + ns.attr + "' processContents=" + WPC_ATTR[pc];
+        std::string s = XSD_HEAD;
+        s += "<xs:import namespace=\"urn:x\" schemaLocation=\"x.xsd\"/>\n";
+        s += R_AND_W + w_decl("<xs:element ref=\"t:e\"/>");
+        s += "<xs:element name=\"a\"><xs:complexType/></xs:element>\n";
+        s += std::string("<xs:element name=\"e\"><xs:complexType><xs:sequence><xs:any namespace=\"") + ns.attr + "\" processContents=\"" + WPC_ATTR[pc] + "\"/></xs:sequence></xs:complexType></xs:element>\n</xs:schema>\n";
+        bc.files["/v/s.xsd"] = s;
+        bc.files["/v/x.xsd"] = "<xs:schema xmlns:xs=\"http://www.w3.org/2001/XMLSchema\" targetNamespace=\"urn:x\" elementFormDefault=\"qualified\">\n<xs:element name=\"x\" type=\"xs:integer\"/>\n</xs:schema>\n";
+        for (auto& ch : chs) {
+            Item it;
+            it.xml = std::string("<t:e>") + ch.xml + "</t:e>";
+            bool invalid = false; std::string why = "valid";
+            if (ch.nsclass == '-') { invalid = true; why = "cvc-complex-type.2.4: required wildcard particle missing"; }
+            else if (ch.nsclass == '2') { invalid = true; why = "cvc-complex-type.2.4: two children for a (1,1) wildcard" ; }
+            else {
+                bool admitted = ch.nsclass == 't' ? ns.t : ch.nsclass == 'x' ? ns.x : ch.nsclass == 'l' ? ns.local : ns.other;
+                if (!admitted) { invalid = true; why = "cvc-wildcard-namespace: namespace not admitted by the wildcard"; }
+                else if (pc == 0 && ch.decl == 0) { invalid = true; why = "cvc-assess-elt / strict: no global declaration available"; }
+                else if (pc != 2 && ch.decl == 2) { invalid = true; why = "declared element with invalid content under strict/lax"; }
+            }
+            it.expect = invalid ? 1 : 0;
+            it.why = why;
+            bc.items.push_back(it);
+        }
+        BCASES.push_back(bc);
+    }
+}
+
+// ================================================================================================ schema assembly (metamorphic + reference)
+// The same abstract component  e : { (a, b?) ; attribute p : xs:integer required }  written in different ways.  Instances are
+// abstract (child word over {a,b,d}, p present/absent) and rendered per variant; every variant must give the same verdict vector,
+// which is also the one the reference computes.
+static void build_assembly(const std::string& tier) {
+    (void)tier;
+    struct V { std::string name; std::map<std::string, std::string> files; std::string cns;  /* namespace prefix of the children: "t:", "u:" or "" */ std::string head; std::string typeName; };
+    std::vector<V> vs;
+    const std::string RW = std::string(R_AND_W);
+    const std::string AB_GLOBAL = "<xs:element name=\"a\"><xs:complexType/></xs:element>\n<xs:element name=\"b\"><xs:complexType/></xs:element>\n";
+    const std::string SEQ_REF = "<xs:sequence><xs:element ref=\"t:a\"/><xs:element ref=\"t:b\" minOccurs=\"0\"/></xs:sequence>";
+    const std::string SEQ_LOCAL = "<xs:sequence><xs:element name=\"a\"><xs:complexType/></xs:element><xs:element name=\"b\" minOccurs=\"0\"><xs:complexType/></xs:element></xs:sequence>";
+    const std::string ATT_P = "<xs:attribute name=\"p\" type=\"xs:integer\" use=\"required\"/>";
+    const std::string END = "</xs:schema>\n";
+    auto add = [&](const std::string& name, const std::string& main, const std::string& cns, const std::string& typeName, std::map<std::string, std::string> extra = {}, const std::string& head = DOC_HEAD) {
+        V v; v.name = name; v.files = extra; v.files["/v/s.xsd"] = main; v.cns = cns; v.head = head; v.typeName = typeName; vs.push_back(v);
+    };
+    // V0: everything global and named
+    add("global-named", std::string(XSD_HEAD) + RW + w_decl("<xs:element ref=\"t:e\"/>") + AB_GLOBAL + "<xs:complexType name=\"T\">" + SEQ_REF + ATT_P + "</xs:complexType>\n<xs:element name=\"e\" type=\"t:T\"/>\n" + END, "t:", "urn:t|T");
+    // V1: local (qualified) element declarations inside the named type
+    add("local-elements", std::string(XSD_HEAD) + RW + w_decl("<xs:element ref=\"t:e\"/>") + "<xs:complexType name=\"T\">" + SEQ_LOCAL + ATT_P + "</xs:complexType>\n<xs:element name=\"e\" type=\"t:T\"/>\n" + END, "t:", "urn:t|T");
+    // V2: anonymous type
+    add("anonymous-type", std::string(XSD_HEAD) + RW + w_decl("<xs:element ref=\"t:e\"/>") + AB_GLOBAL + "<xs:element name=\"e\"><xs:complexType>" + SEQ_REF + ATT_P + "</xs:complexType></xs:element>\n" + END, "t:", "");
+    // V3: model group + attribute group
+    add("groups", std::string(XSD_HEAD) + RW + w_decl("<xs:element ref=\"t:e\"/>") + AB_GLOBAL + "<xs:group name=\"G\">" + SEQ_REF + "</xs:group>\n<xs:attributeGroup name=\"AG\">" + ATT_P + "</xs:attributeGroup>\n" +
+                      "<xs:complexType name=\"T\"><xs:group ref=\"t:G\"/><xs:attributeGroup ref=\"t:AG\"/></xs:complexType>\n<xs:element name=\"e\" type=\"t:T\"/>\n" + END, "t:", "urn:t|T");
+    // V4: local element e inside the wrapper instead of a reference to a global one
+    add("local-e", std::string(XSD_HEAD) + RW + AB_GLOBAL + "<xs:complexType name=\"T\">" + SEQ_REF + ATT_P + "</xs:complexType>\n" + w_decl("<xs:element name=\"e\" type=\"t:T\"/>") + END, "t:", "urn:t|T");
+    // V5: type in an included document (same target namespace)
+    add("include", std::string(XSD_HEAD) + "<xs:include schemaLocation=\"s2.xsd\"/>\n" + RW + w_decl("<xs:element ref=\"t:e\"/>") + "<xs:element name=\"e\" type=\"t:T\"/>\n" + END, "t:", "urn:t|T",
+        {{"/v/s2.xsd", std::string(XSD_HEAD) + AB_GLOBAL + "<xs:complexType name=\"T\">" + SEQ_REF + ATT_P + "</xs:complexType>\n" + END}});
+    // V6: chameleon include (included document without target namespace; references inside it are to no-namespace names that are coerced)
+    add("chameleon-include", std::string(XSD_HEAD) + "<xs:include schemaLocation=\"s2.xsd\"/>\n" + RW + w_decl("<xs:element ref=\"t:e\"/>") + "<xs:element name=\"e\" type=\"t:T\"/>\n" + END, "t:", "urn:t|T",
+        {{"/v/s2.xsd", "<xs:schema xmlns:xs=\"http://www.w3.org/2001/XMLSchema\" elementFormDefault=\"qualified\">\n<xs:complexType name=\"T\">" + SEQ_LOCAL + ATT_P + "</xs:complexType>\n" + END}});
+    // V7: type imported from a second namespace, children qualified in urn:u
+    add("import-qualified", std::string(XSD_HEAD) + "<xs:import namespace=\"urn:u\" schemaLocation=\"s2.xsd\"/>\n" + RW + w_decl("<xs:element ref=\"t:e\"/>") + "<xs:element name=\"e\" type=\"u:T\" xmlns:u=\"urn:u\"/>\n" + END, "u:", "urn:u|T",
+        {{"/v/s2.xsd", "<xs:schema xmlns:xs=\"http://www.w3.org/2001/XMLSchema\" targetNamespace=\"urn:u\" elementFormDefault=\"qualified\">\n<xs:complexType name=\"T\">" + SEQ_LOCAL + ATT_P + "</xs:complexType>\n" + END}});
+    // V8: type imported from a second namespace, local children unqualified
+    add("import-unqualified", std::string(XSD_HEAD) + "<xs:import namespace=\"urn:u\" schemaLocation=\"s2.xsd\"/>\n" + RW + w_decl("<xs:element ref=\"t:e\"/>") + "<xs:element name=\"e\" type=\"u:T\" xmlns:u=\"urn:u\"/>\n" + END, "", "urn:u|T",
+        {{"/v/s2.xsd", "<xs:schema xmlns:xs=\"http://www.w3.org/2001/XMLSchema\" targetNamespace=\"urn:u\">\n<xs:complexType name=\"T\">" + SEQ_LOCAL + ATT_P + "</xs:complexType>\n" + END}});
+    // V9: element e itself lives in the imported namespace and is referenced from the wrapper
+    add("import-element", std::string(XSD_HEAD) + "<xs:import namespace=\"urn:u\" schemaLocation=\"s2.xsd\"/>\n" + RW + w_decl("<xs:element ref=\"u:e\" xmlns:u=\"urn:u\"/>") + END, "u:", "urn:u|T",
+        {{"/v/s2.xsd", "<xs:schema xmlns:xs=\"http://www.w3.org/2001/XMLSchema\" targetNamespace=\"urn:u\" xmlns:u=\"urn:u\" elementFormDefault=\"qualified\">\n<xs:complexType name=\"T\">" + SEQ_LOCAL + ATT_P +
+                            "</xs:complexType>\n<xs:element name=\"e\" type=\"u:T\"/>\n" + END}});
+    // V10: attribute declared globally and referenced (then it is qualified: t:p) - separate rendering of the attribute
+    add("global-attribute-ref", std::string(XSD_HEAD) + RW + w_decl("<xs:element ref=\"t:e\"/>") + AB_GLOBAL + "<xs:attribute name=\"p\" type=\"xs:integer\"/>\n<xs:complexType name=\"T\">" + SEQ_REF +
+                                    "<xs:attribute ref=\"t:p\" use=\"required\"/></xs:complexType>\n<xs:element name=\"e\" type=\"t:T\"/>\n" + END, "t:", "urn:t|T");
+    const char SYMS[3] = {'a', 'b', 'd'};
+    for (size_t vi = 0; vi < vs.size(); vi++) {
+        V& v = vs[vi];
+        BCase bc;
+        bc.desc = "assembly variant=" + v.name;
+        bc.files = v.files;
+        bc.docHead = "<t:r xmlns:t=\"urn:t\" xmlns:u=\"urn:u\" xmlns:x=\"urn:x\" xmlns:xsi=\"http://www.w3.org/2001/XMLSchema-instance\" xsi:schemaLocation=\"urn:t s.xsd\">\n";
+        std::string eName = v.name == "import-element" ? "u:e" : "t:e";
+        std::string pName = v.name == "global-attribute-ref" ? "t:p" : "p";
+        for (uint64_t wi = 0; wi < words_upto(3, 3); wi++) for (int pk = 0; pk < 3; pk++) {
+            std::vector<int> w = word_at(wi, 3, 3);
+            Item it;
+            std::string xml = "<" + eName + (pk == 1 ? " " + pName + "=\"5\"" : pk == 2 ? " " + pName + "=\"x\"" : "") + ">";
+            std::string ws;
+            for (int sidx : w) { xml += "<" + v.cns + SYMS[sidx] + "/>"; ws += SYMS[sidx]; }
+            xml += "</" + eName + ">";
+            it.xml = xml;
+            bool ok = (ws == "a" || ws == "ab") && pk == 1;
+            it.expect = ok ? 0 : 1;
+            it.why = ok ? "valid" : (pk == 0 ? "required attribute missing" : pk == 2 ? "attribute value not an integer" : "children do not match (a, b?)");
+            if (pk != 1 && !(ws == "a" || ws == "ab")) it.why = "children do not match (a, b?) and attribute problem";
+            if (ok && !v.typeName.empty()) it.type = v.typeName;
+            if (ok) it.attrTypes.push_back("p|" + XSDNS + "|integer");
+            bc.items.push_back(it);
+        }
+        BCASES.push_back(bc);
+    }
+}
+
+static bool setup_space(const std::string& space, const std::string& tier, const Args& a, Runner& R) {
+    if (space == "attrs") build_attrs(tier);
+    else if (space == "content") build_content(tier);
+    else if (space == "types") build_types(tier);
+    else if (space == "wild") build_wild(tier);
+    else if (space == "assembly") build_assembly(tier);
+    else return false;
+    g_bspace = space;
+    size_t items = 0;
+    for (auto& b : BCASES) items += b.items.size();
+    R.total = BCASES.size();
+    R.fn = run_bcase;
+    R.describe = [](uint64_t i) { return "{\"case\":" + jstr(BCASES[i].desc) + "}"; };
+    R.extra_json = "\"bounds\":{\"schemas\":" + std::to_string(BCASES.size()) + ",\"instance_items\":" + std::to_string(items) + "}";
+    if (a.has("count-only")) { printf("schemas=%zu items=%zu\n", BCASES.size(), items); exit(0); }
+    return true;
+}
